@@ -259,14 +259,11 @@ def check_reload(sch, text, specs, text2, acc, mid):
     acc.transitions += 1
     acc.nt()
     first, second = outcome(r[0]), outcome(r[1])
-    want1 = outcome(H.load(sch, text, overrides=list(specs)))
+    # (the first load on a new loader is what loadConfigFile(..., overrides=) does: compared by check_list)
     want2 = outcome(H.load(sch, text2, overrides=list(specs)))
     acc.cls("reload:%s/%s" % (second[0], want2[0]))
     case = {"member": mid, "text": text, "overrides": list(specs), "second_text": text2}
-    if first != want1:
-        acc.violation("first-load-on-loader-differs", case, [first[0], repr(first[1])[:300]],
-                      [want1[0], repr(want1[1])[:300]], tags={"kind": "loader-reuse", "step": 1})
-    elif second != want2:
+    if second != want2:
         acc.violation("second-load-on-same-loader-differs", case, [second[0], repr(second[1])[:300]],
                       [want2[0], repr(want2[1])[:300]], tags={"kind": "loader-reuse", "step": 2,
                                                                "first": first[0], "second": second[0]})
@@ -363,7 +360,6 @@ def shard(member, acc):
             if resolves[s] or "/" not in s.split("=", 1)[0]:
                 check_reload(sch, text, (s,), text, acc, mid)
                 if prev_text is not None:
-                    check_reload(sch, text, (s,), prev_text, acc, mid)
                     check_reload(sch, prev_text, (s,), text, acc, mid)
         prev_text = text
         # pairs (and triples in the thorough tier) over a sub-alphabet chosen to interact
@@ -422,7 +418,7 @@ def run(tier):
              "key-type-refused keys x convertible / empty / unconvertible / '$' / '=' values, absent sections, "
              "malformed specifiers); all single specifiers, all ordered pairs over an interacting sub-alphabet "
              "(thorough: triples, quadruples on the first seeds); every resolving single specifier also on ONE loader object "
-             "serving two loads (the same text again; this seed and the previous seed of the schema in both orders), each "
+             "serving two loads (the same text again; the previous seed of the schema, then this one), each "
              "load compared with a fresh loader's.  states = seeds, transitions = override lists "
              "loaded.  Non-trivial = list with >= 1 specifier that resolves to an existing section."
              % ("40" if tier == "quick" else "400"),
@@ -452,7 +448,7 @@ def replay(body):
             want2 = outcome(H.load(sch, case["second_text"], overrides=case["overrides"]))
             print("second load on the same loader:", second[0], repr(second[1])[:300])
             print("same load on a fresh loader:   ", want2[0], repr(want2[1])[:300])
-            rc = 1 if (second != want2 or outcome(r[0]) != obs) else rc
+            rc = 1 if second != want2 else rc
         elif "edited" in case:
             exp = outcome(H.load(sch, case["edited"]))
             print("edited text:\n" + case["edited"] + "observed on edited text:", exp[0], repr(exp[1])[:300])
